@@ -69,13 +69,25 @@ def layout(rng, h, o, runs, kind=None):
     kt = ["n"] * nk if kind == "way" else [rng.choice("nwr") for _ in range(nk)]
     base = rng.choice([0, 0, 7, 86400])
     unit = rng.choice([1, 1, 60, 1800])
+    optall = rng.random() < 0.5
+    nothr = False
+    if rng.random() < 0.3:
+        # a call that relies on the defaults: only non-default options are passed, and the threshold is the
+        # documented 30 minutes (timestamps: eps ticks = 1800 s; commit times: thresholds do not apply, option left out)
+        optall = False
+        if o["regime"] == "commit":
+            nothr = True
+        elif o["eps"] > 0:
+            unit = 1800 // o["eps"]
     lay = dict(kind=kind, unit=unit, base=base, skew=rng.choice([0, min(base, 5)]),
                vstep=rng.choice([1, 2, 5]), voff=rng.choice([0, 3]),
                idbase=str(rng.choice([0, 1000, 2 ** 31, 2 ** 39])), csbase=str(rng.choice([0, 5000, 2 ** 33])),
-               shuffle=rng.randrange(1 << 30), runs=runs, optall=rng.random() < 0.5,
+               shuffle=rng.randrange(1 << 30), runs=runs, optall=optall, nothr=nothr,
                sameid=(kind == "rel" and len(set(kt)) == nk and rng.random() < 0.5),
                late=(o["regime"] == "stamp" and rng.random() < 0.5))
-    return kt, lay
+    # per child: the version whose location is exactly (0, 0) (0 = none); moving to and away from the origin
+    zv = [rng.choice([0, 0, 1, 2, 3]) for _ in range(nk)]
+    return kt, zv, lay
 
 
 def make_cases(ctx, hs, opts, runs, per_history=None, salt=0):
@@ -85,8 +97,8 @@ def make_cases(ctx, hs, opts, runs, per_history=None, salt=0):
     for h in hs:
         os_ = opts if per_history is None or per_history >= len(opts) else rng.sample(opts, per_history)
         for o in os_:
-            kt, lay = layout(rng, h, o, runs)
-            cases.append({"h": h, "o": o, "kt": kt, "lay": lay})
+            kt, zv, lay = layout(rng, h, o, runs)
+            cases.append({"h": h, "o": o, "kt": kt, "zv": zv, "lay": lay})
     return cases
 
 
@@ -96,9 +108,72 @@ def random_cases(ctx, binpath, n, runs, kids=10, vers=6, pars=4):
     rng = random.Random(ctx.seed * 7919 + 17)
     cases = []
     for r in recs:
-        kt, lay = layout(rng, r["h"], r["o"], runs)
-        cases.append({"h": r["h"], "o": r["o"], "kt": kt, "lay": lay})
+        kt, zv, lay = layout(rng, r["h"], r["o"], runs)
+        cases.append({"h": r["h"], "o": r["o"], "kt": kt, "zv": zv, "lay": lay})
     return cases
+
+
+# ------------------------------------------------------------------------------------------
+# call sequences (history independence)
+# ------------------------------------------------------------------------------------------
+def make_sequences(ctx, pool, rough, n, salt=0):
+    """Call histories for one process: a base call A repeated with other calls in between -
+    A, X1, A, X2, B, A.  X are drawn mostly from `rough` (unrestricted histories / filters / ignore options: many of
+    them fail part way or carry non-default options), B and A from the whole pool (ways and relations mixed)."""
+    rng = random.Random(ctx.seed * 69061 + salt)
+    seqs = []
+    for _ in range(n):
+        a = dict(rng.choice(pool))
+        x1 = rng.choice(rough if rng.random() < 0.7 else pool)
+        x2 = rng.choice(rough if rng.random() < 0.7 else pool)
+        b = rng.choice(pool)
+        steps = [a, x1, a, x2, b, a]
+        steps = [dict(s_, lay=dict(s_["lay"], runs=1)) for s_ in steps]
+        seqs.append({"steps": steps})
+    return seqs
+
+
+def execute_seq(binpath, seqs):
+    recs = vlib.run_go(binpath, args=["-seq"], stdin_lines=seqs)
+    if len(recs) != len(seqs):
+        raise vlib.Infra("harness returned %d records for %d sequences" % (len(recs), len(seqs)))
+    return recs
+
+
+def run_sequences(ctx, binpath, seqs, mode, attempts=3, max_confirm=12):
+    """Execute the call sequences (one child process each), judge, confirm.  A failing sequence is replayed as a
+    whole in a fresh process; which call of it fails can move with Go's map iteration order, so a failure with the
+    same reason anywhere in the re-run batch counts as reproduced."""
+    recs = execute_seq(binpath, seqs)
+    ctx.evaluations += sum(len(s_["steps"]) for s_ in seqs)
+    for s_ in seqs[:2000]:
+        ctx.distinct.add(vlib.hashlib.sha1(json.dumps(s_, sort_keys=True).encode()).hexdigest()[:16])
+    bad = judge_seq(ctx, recs, mode)
+    if not bad:
+        return 0
+    sel = bad[:max_confirm]
+    confirmed = {}
+    for _ in range(attempts):
+        again = execute_seq(binpath, [seqs[i] for i, _, _ in sel])
+        bad2 = judge_seq(ctx, again, mode)
+        whys2 = {tuple(w) for _, w, _ in bad2}
+        idx2 = {j for j, _, _ in bad2}
+        for j, (i, why, kf) in enumerate(sel):
+            if j in idx2 or tuple(why) in whys2:
+                confirmed[i] = (why, kf)
+        if confirmed:
+            break
+    if not confirmed:
+        raise vlib.Infra("%s: %d sequence failures, none reproduced in %d re-runs" % (ctx.prop, len(bad), attempts))
+    for i, (why, kf) in confirmed.items():
+        rp = {"property": ctx.prop, "case": seqs[i], "record": recs[i], "why": why, "kf": kf, "seed": ctx.seed, "mode": mode}
+        ctx.report_bad(seqs[i], why, kf, rp)
+    ctx.extra["failing_sequences_total"] = len(bad)
+    return len(confirmed)
+
+
+def judge_seq(ctx, recs, mode):
+    return judge(ctx, recs, mode, shards=max(1, min(vlib.NCPU // 2, len(recs) // 150)), seq=True)
 
 
 # ------------------------------------------------------------------------------------------
@@ -111,7 +186,7 @@ def execute(binpath, cases):
     return recs
 
 
-def judge(ctx, recs, mode, shards=None):
+def judge(ctx, recs, mode, shards=None, seq=False):
     """TLC evaluates the Judges on the recorded lines.  DIVERGENCE lines (every Judge holds, but the result is
     not the Model's) are counted and printed, never returned as failures."""
     n = len(recs)
@@ -124,7 +199,7 @@ def judge(ctx, recs, mode, shards=None):
             if ctx.divergences <= 5:
                 vlib.log("DIVERGENCE property=%s case=%s got=%s" % (
                     ctx.prop, json.dumps(recs[i]["case"], separators=(",", ":"))[:600],
-                    json.dumps(recs[i]["got"]["runs"][0], separators=(",", ":"))[:400]))
+                    json.dumps(recs[i]["got"], separators=(",", ":"))[:400]))
         else:
             real.append((i, sorted(why), sorted(kf)))
     return real
@@ -209,13 +284,24 @@ def run(ctx):
     gen_cfgs = GEN_QUICK if quick else GEN_THOROUGH
     join = in_background(lambda: model_check(ctx, mc_cfgs, max(2, vlib.NCPU // 2)))
     total = 0
+    pool, rough = [], []
+    prng = random.Random(ctx.seed * 31337)
     try:
         for n, (cfg, per) in enumerate(gen_cfgs):
             hs, opts = gen_histories(ctx, cfg, workers=4)
             cases = make_cases(ctx, hs, opts, runs=1, per_history=per, salt=n)
             vlib.log("  %s: %d histories, %d option records -> %d cases" % (cfg, len(hs), len(opts), len(cases)))
             total += len(cases)
+            smp = prng.sample(cases, min(len(cases), 600))
+            pool += smp
+            if "_any_" in cfg or "_filter_" in cfg:
+                rough += smp
             run_and_judge(ctx, binpath, cases, "c11")
+        # call sequences in one process each: what a call returns must not depend on the calls before it
+        seqs = make_sequences(ctx, pool, rough, 600 if quick else 5000)
+        vlib.log("  sequences: %d call histories x %d calls" % (len(seqs), len(seqs[0]["steps"])))
+        run_sequences(ctx, binpath, seqs, "seq11")
+        ctx.extra["call_sequences"] = len(seqs)
         fam = vlib.tlc_gen(ctx, "OsmHistoryFamily", "OsmHistoryFamily_q.cfg" if quick else "OsmHistoryFamily_t.cfg")
         # C11's input assumption: child times never decrease in version order (the family's reversed-time
         # members are for C12's Sorted only; CurrentAt is not defined on them)
@@ -252,8 +338,12 @@ def replay(ctx, rp):
 
 def replay_mode(ctx, rp, mode):
     binpath = vlib.go_build("c11")
-    recs = execute(binpath, [rp["case"]])
-    bad = judge(ctx, recs, mode, shards=1)
+    if "steps" in rp["case"]:          # a call sequence: replayed as a whole in one fresh process
+        recs = execute_seq(binpath, [rp["case"]])
+        bad = judge(ctx, recs, rp.get("mode", "seq11" if mode == "c11" else "seq12"), shards=1)
+    else:
+        recs = execute(binpath, [rp["case"]])
+        bad = judge(ctx, recs, mode, shards=1)
     fresh = [b for b in bad if not ctx.known_match(b[2])]
     if fresh:
         print("VIOLATION property=%s replay=(given)  # %s" % (ctx.prop, fresh))
